@@ -207,7 +207,7 @@ func c02Gen(r *sim.Rand, tier string) *sim.Case {
 			cs.Ops = append(cs.Ops, sim.Op{K: "discover", A: []int64{c}})
 		case 1:
 			// A[3]=1: a renewal unicast to the server, bypassing the relay agent (no giaddr, no option 82)
-			cs.Ops = append(cs.Ops, sim.Op{K: "request", A: []int64{c, int64(r.Weighted(10, 6, 5, 1, 1, 1, 1, 2, 2)), int64(r.N(nc)), int64(r.Weighted(2, 1))}})
+			cs.Ops = append(cs.Ops, sim.Op{K: "request", A: []int64{c, int64(r.Weighted(10, 6, 5, 1, 1, 1, 1, 2, 2)), int64(r.N(nc)), int64(r.Weighted(2, 1)), int64(r.Weighted(5, 1))}})
 		case 2:
 			// A[1]=1: RELEASE is unicast to the server and normally bypasses the relay agent
 			cs.Ops = append(cs.Ops, sim.Op{K: "release", A: []int64{c, int64(r.Weighted(1, 1))}})
@@ -216,7 +216,7 @@ func c02Gen(r *sim.Rand, tier string) *sim.Case {
 		case 4:
 			cs.Ops = append(cs.Ops, sim.Op{K: "inform", A: []int64{c}})
 		case 5:
-			cs.Ops = append(cs.Ops, sim.Op{K: "sleep", A: []int64{int64(r.N(7))}})
+			cs.Ops = append(cs.Ops, sim.Op{K: "sleep", A: []int64{int64(r.N(8))}})
 		case 6:
 			cs.Ops = append(cs.Ops, sim.Op{K: "burst", A: []int64{int64(r.Range(2, 3))}})
 		}
@@ -230,7 +230,10 @@ func c02Gen(r *sim.Rand, tier string) *sim.Case {
 				cs.Ops = append(cs.Ops, sim.Op{K: "discover", A: []int64{int64(c)}}, sim.Op{K: "request", A: []int64{int64(c), 0, 0, 0}})
 			}
 			if round == 0 {
-				cs.Ops = append(cs.Ops, sim.Op{K: "sleep", A: []int64{4}})
+				cs.Ops = append(cs.Ops, sim.Op{K: "sleep", A: []int64{int64(sim.Pick(r, 4, 7, 7))}})
+				if r.P(50) {
+					cs.Ops = append(cs.Ops, sim.Op{K: "sleep", A: []int64{7}})
+				}
 			}
 		}
 	}
@@ -457,6 +460,15 @@ func c02Run(c *sim.Ctx) {
 			}
 			msg := m
 			ts = append(ts, c.S.Spawn("handler", nil, func() { srv.VerifHandle(w.conn, peer, msg) }))
+			if op.K == "request" && op.Arg(1) == 1 && op.Arg(4) == 1 {
+				// the network duplicates the renewal: both copies are handled at the same time
+				c.S.Fault("net.dup")
+				dupm, err := dhcpv4.FromBytes(m.ToBytes())
+				if err != nil {
+					panic(err)
+				}
+				ts = append(ts, c.S.Spawn("handler", nil, func() { srv.VerifHandle(w.conn, peer, dupm) }))
+			}
 		}
 		c.S.Join(ts...)
 	}
@@ -487,6 +499,12 @@ func c02Run(c *sim.Ctx) {
 		switch op.K {
 		case "sleep":
 			d := sleepFor(op.Arg(0))
+			if op.Arg(0) == 7 {
+				// up to the next tick of the once-a-minute lease cleanup: what follows is
+				// delivered at the very instant the cleanup runs
+				d = time.Minute - w.now()%time.Minute
+				c.S.Fault("clock.aligned-with-cleanup-tick")
+			}
 			if d >= lease {
 				c.S.Fault("clock.jump-past-lease-expiry")
 			} else if d > 5*time.Second {
